@@ -495,10 +495,12 @@ impl<'a> Walker<'a> {
                     return;
                 };
                 let elem = unbox(elem).to_string();
-                if o.etag.is_some() {
+                let hoisted_elem = elem == format!("Anonymous{rname}");
+                if o.etag.is_some() || hoisted_elem {
                     // the element type is hoisted as Anonymous<Name>; the element's tag belongs there
+                    // (and nothing else does: an untagged element's hoisted type carries no tag)
                     let got = self.rmod.find_struct(&elem).map(|s| s.attrs.tag.clone()).or_else(|| self.rmod.find_enum(&elem).map(|e| e.attrs.tag.clone())).flatten();
-                    let got = if elem == format!("Anonymous{rname}") { got } else { None };
+                    let got = if hoisted_elem { got } else { None };
                     let et = (*o.elem).clone();
                     self.judge_tag(o.etag.as_ref(), &et, got.as_ref(), &format!("{at}[]"), "element");
                 }
@@ -634,6 +636,25 @@ impl<'a> Walker<'a> {
         }
         if needs_unnesting(&c.ty) {
             let t = c.ty.clone();
+            // the member's tag sits on the field / variant; the hoisted item itself has none
+            let own = self.rmod.find_struct(&hoisted).map(|s| s.attrs.tag.clone()).or_else(|| self.rmod.find_enum(&hoisted).map(|e| e.attrs.tag.clone())).flatten();
+            if let Some(g) = own {
+                let tagging = self.module.tagging;
+                let depth = self.depth;
+                let target = self.tag_target(&t);
+                self.tag_out.push(TagDisc {
+                    clause: "C03:tag-spurious",
+                    at: at.to_string(),
+                    detail: format!("the hoisted type {hoisted} of a member carries tag({}, {}{}) of its own", g.class, g.num, if g.explicit { ", explicit" } else { "" }),
+                    tagging,
+                    keyword: None,
+                    depth,
+                    position: "hoisted",
+                    target,
+                    expected_explicit: None,
+                    got_explicit: Some(g.explicit),
+                });
+            }
             self.depth += 1;
             self.verify_type(&t, &hoisted, at);
             self.depth -= 1;
